@@ -37,7 +37,7 @@ CHECKS = {
  "C32": dict(tech="HIR match-arm facts (variant -> callee sets) for the state machine, shared must-pass storage-effect rule (C16), CHA reachability for nondeterminism sources, must-pass in RaftNode::write",
              text="Decides the wiring of each replicated request kind to its own persistence function with a storage effect, error surfacing, determinism of apply (no RNG/env/clock outside entity timestamps), apply-before-acknowledge, and (shared with C16) that an update merges with the update winning and nothing is acknowledged unlogged.", ref="§5 C32"),
  "C06": dict(tech="transitive field write/read effects over the call graph (mutator kind table), representation-completeness of deleting mutators vs creators/compaction, raw-handle bypass inventory; closure-predicate analysis of adjacency removals (by relationship id), dominance of endpoint liveness tests over adjacency writes, per-function field-read coherence of tier pairs",
-             text="Decides which representations of an edge/node each mutator maintains: a deleting mutator that recycles ids must cover every representation creators and compaction write (three known findings: the frozen CSR tier), counts read only maintained data, creators are complete, labels of stored nodes change only through index-maintaining methods, adjacency entries are removed by relationship id only, every creator tests both endpoints, and read views read whole (frozen, buffer) pairs of one direction.", ref="§5 C06"),
+             text="Decides which representations of an edge/node each mutator maintains: a deleting mutator that recycles ids must cover every representation creators and compaction write (three known findings: the frozen CSR tier), counts read only maintained data, creators are complete, labels of stored nodes change only through index-maintaining methods, adjacency entries are removed by relationship id only, every creator tests both endpoints, read views read whole (frozen, buffer) pairs of one direction, finish_bulk_load rebuilds unconditionally, and a failed mutator has not handed an id back to the allocator.", ref="§5 C06"),
  "C07": dict(tech="copy-on-write guard rule on functions taking last_mut of a version chain; generic-instantiation match for flatten over Vec<Vec<Node>>; chain-emptying callee class in delete_node; reachability of last_mut from the older-version side avoiding the clone push; write-effect pairing and base-image provenance for the relationship version log",
              text="Decides the three structural ways versioned reads break: in-place mutation of an old version (one known finding: the raw get_node_mut handle), scans enumerating all versions, deletion leaving older versions; and for relationships that every property change is logged and the first logged write keeps the state it replaces (both fixed).", ref="§5 C07"),
  "C08": dict(tech="closure-predicate evaluation over version orderings, range-type and def-use check of the drain bound, aggregate shape of the watermark",
@@ -45,7 +45,7 @@ CHECKS = {
  "C09": dict(tech="dominance / must-pass obligations over the MIR of commit/abort, predicate evaluation of the conflict test, per-variant read-version table from the discriminant switch",
              text="Decides the per-call obligations of first-committer-wins (status gate, strict conflict predicate on both write sets, strictly increasing version on every success, terminal statuses) and the read version per isolation level. Interleaving enumeration is not needed for these (commit takes &mut self) and not claimed beyond them.", ref="§5 C09"),
  "C02": dict(tech="T-PAIR maintenance matrix (call-graph reachability from each kill mutator to index_remove), forward taint from the index-predicate position to a removal from the residual list, shared frozen-tier effect rule; field-read coherence of (frozen, buffer) pairs per read view and caller-merges-both-tiers; no index removal after insertion within one pass (CFG without back edges)",
-             text="Decides that every way a node leaves an indexed (label, property, value) removes it from the index, that index-derived predicates remain in the residual filter, that maintenance never removes what it just inserted, that every adjacency read view reads both tiers of one direction, and (with C06) the deletion clause of the tier. Equivalence of the two planners / parallel filter is not decided.", ref="§5 C02"),
+             text="Decides that every way a node leaves an indexed (label, property, value) removes it from the index, that index-derived predicates remain in the residual filter, that maintenance never removes what it just inserted, that a literal-first comparison is mirrored (not negated) before it is served from an index, that no evaluation error is dropped in a filter, that every adjacency read view reads both tiers of one direction, and (with C06) the deletion clause of the tier. Equivalence of the two planners / parallel filter is not decided.", ref="§5 C02"),
  "C10": dict(tech="HIR match-arm facts of the Ord / Hash / rank impls (diagonal and cross-arm coverage, float primitive per arm, tag literals) plus impl-kind facts (derived vs manual); dominance of NaN tests over the delegation to the index order; call inventory of comparator bodies (no derived ==)",
              text="Decides comparator-law lints: one float primitive per comparator (fixed), diagonal and same-bucket cross coverage, Hash exhaustive with distinct tags, rank exhaustive, the Eq/Ord/Hash impl-kind disagreement (one known finding), NaN decided for every pair before ORDER BY delegates to the index order (fixed), and no comparator shortcut through the derived ==. Transitivity over values is not decided.", ref="§5 C10"),
  "C11": dict(tech="T-PAIR matrix on the constraint index, order of lookup vs writes in set_node_property, use-def check for discarded Results of constraint-checking writes in the executor; mutation-point analysis (no error exit after a mutation in a store mutator); dominance of registration over backfill; gain-side obligations per mutator kind; reachability of the release from both sides of the null test",
@@ -57,15 +57,15 @@ CHECKS = {
  "C01": dict(tech="branch-local callee classification in the multi-label scan, planner site rules (labels passed, residual kept), HIR arm sibling comparison of the six evaluator copies with a frozen, condition-checked exception table; representation-invariant rule for flag-selected accumulators (sum)",
              text="Decides three structural clauses of read semantics: conjunctive multi-label scan (known finding: pinned by an existing test), index scans keep all labels and a residual, evaluator siblings agree, and sum() folds its integer total when it switches to float. The rest of openCypher semantics is not decided.", ref="§5 C01"),
  "C04": dict(tech="dominance / branch rules in DeleteOperator and MergeOperator MIR, use-def check for discarded store Results with an automatically recognised rollback-on-error idiom, field-read inventory for row-map-only decisions; content taint (no scalar pass-through) from input property maps to returned maps; barrier-drain CFG rule",
-             text="Decides refusal of connected plain DELETE, that write operators surface store errors, that MERGE always searches before creating and keeps every pattern property, that WITH drains its input before emitting, and which existence decisions ignore the column store (known finding).", ref="§5 C04"),
+             text="Decides refusal of connected plain DELETE, that write operators surface store errors, that MERGE always searches before creating (per row, from the store), keeps every pattern property, that no write operator turns an evaluation error into a value, that WITH drains its input before emitting, and which existence decisions ignore the column store (known finding).", ref="§5 C04"),
  "C05": dict(tech="must-pass-through of a compensating store write on every error exit of each write driver (callers of dyn next_batch_mut outside the operator tree); shared discarded-Result rule; mutation-point analysis of every fallible store mutator; barrier-drain CFG rule",
-             text="Decides the necessary condition for statement atomicity — some compensation on every error exit after the first pull — which fails today (known finding); that each store call on its own is all-or-nothing (no error exit after a mutation point), that WITH drains before emitting, and that failures are not swallowed.", ref="§5 C05"),
+             text="Decides the necessary condition for statement atomicity — some compensation on every error exit after the first pull — which fails today (known finding); that each store call and each schema statement on its own is all-or-nothing (no error exit after a mutation point), that a failing row leaves no half-built node (8 known findings), that WITH drains before emitting, and that failures are not swallowed.", ref="§5 C05"),
  "C25": dict(tech="consumer classification of every numeric parse Result in the parser (including call sites of the generic parse helper), cast sinks on parsed numbers; panic-site inventory justified by grammar facts read from cypher.pest; dominance of the nesting-depth guard over the recursive parse",
              text="Decides the numeric clause: every numeral/bound parse is surfaced as an error, never unwrapped, defaulted or dropped, and parsed numbers are not narrowed. The no-panic clause is decided as: every panic-capable site over pest pairs is justified by a grammar fact or a reviewed entry, and nesting depth is bounded before the recursive parser runs.", ref="§5 C25"),
  "C35": dict(tech="HIR arm facts for every match on Expression::Parameter and for substitute_expr (variant coverage, recursion into Expression-typed children from ADT facts), order of substitution vs planning",
              text="Decides the only ways a parameterised run could silently differ: a defaulting evaluation arm, inexact/non-recursive substitution, planning before substitution, a substitution skipped on anything but empty parameter maps, an ORDER BY position or the clause pipeline the substitution does not visit, or an evaluation error dropped outside the reviewed sort-key sites.", ref="§5 C35"),
  "C12": dict(tech="HIR arm facts of the two codec functions (tag literals, constructed variants), identity-op classification of the String arm, def-use of the label argument to create_node*, serde-struct constant flow for record kinds; shared C06/C07 rules",
-             text="Decides agreement of the writer's and reader's tag tables and record kinds, identity decoding of strings, no invented label, one version per exported node, imported labels indexed, both property tiers merged into every node record, an id set that cannot drop ids, and no record field written as a constant. Value-level round trip (non-finite floats, __type-keyed maps) is not decided.", ref="§5 C12"),
+             text="Decides agreement of the writer's and reader's tag tables and record kinds, identity decoding of strings, no invented label, one version per exported node, imported labels indexed, both property tiers merged into every node record, an id set that cannot drop ids (length evaluated against max/64), a record for every iterated item, and no record field written as a constant. Value-level round trip (non-finite floats, __type-keyed maps) is not decided.", ref="§5 C12"),
  "C13": dict(tech="def-use coverage of every store-mutating call in the import against the rollback's record (created_nodes), transitive write effects to find the mutators, reviewed neutral-effect exception",
              text="Decides which mutations of a failing import are outside the rollback's reach (eight known findings: merges into existing nodes, edges between pre-existing nodes, hierarchy declarations), and that a read error of the snapshot stream always fails the import.", ref="§5 C13"),
  "C34": dict(tech="CHA call-graph unreachability of unseeded randomness and rayon reductions from every solve() inside the crate, sibling bound-repair rule, guarded-sampling rule (dominating lower<upper comparison over the Range's own operands)",
